@@ -93,6 +93,7 @@ def gen_C05(chk):
     shapes = ["AX_a", "EX_a", "AU_x", "EW_", "AG_on", "EF_1", "AF__", "A_X", "EG_G", "AW_AW", "_AX",
               "EX", "EXa", "EXX", "E", "A", "EU", "AUx", "AW1", "3", "3a", "V", "Vx", "V_", "_", "__x",
               "1", "0", "true", "True", "false", "False", "truex", "1a", "a1", "in", "x in", "é",
+              "TRUE", "FALSE", "tRue", "fALSE", "True_", "00", "01",
               "λx", "٣", "a½", "a€b", "a→", "∀{x}: a", "a & b",
               "EX a", "3 {x}: a", "a·b"]
     for sh in shapes:
@@ -397,6 +398,20 @@ def gen_C08(chk):
                 chk.cases[g_]["perm"] = (0,)
             # the front end must agree as well: same preprocessed tree
             pg = []
+            if j % 4 == 0:
+                # extended formulae: long / short spellings next to domains and wild-cards
+                fe = gen.random_formula(rng, rng.randint(2, 6), props, max_vars=2, wilds=("p",), doms=("d",), w_hybrid=0.6)
+                ke = gen.quant_depth(fe)
+                ctx = [("p", ctx_spec(rng)), ("d", ctx_spec(rng))]
+                ge = [chk.add_eval(net, ke, "es", [gen.render(fe)], ctx=ctx, tag="canonical-ext", netname=nm)]
+                chk.cases[ge[0]]["ast"] = fe
+                for v in range(5):
+                    cid = chk.add_eval(net, ke, "es", [gen.render_variant(fe, rng)], ctx=ctx, tag="variant-ext", netname=nm)
+                    chk.cases[cid]["ast"] = fe
+                    ge.append(cid)
+                for g_ in ge:
+                    chk.cases[g_]["group"] = ge
+                    chk.cases[g_]["perm"] = (0,)
             for cid in group:
                 s = chk.cases[cid]["formulas"][0]
                 c2 = chk.add_front("PREP", ["0", ",".join(gen.hx(p) for p in props), gen.hx(s)], tag="prep-variant")
@@ -459,6 +474,17 @@ def gen_C09(chk):
             continue
         chk.add_front("DUPS", ["1", ",".join(gen.hx(p) for p in props), ",".join(gen.hx(gen.render(f)) for f in fs)],
                       tag="dups", meta={"fs": fs})
+    # twins that differ in one operator only must not be identified
+    a_, b_ = gen.T("P", "a"), ("U", "EF", gen.T("P", "b"))
+    for o1, o2 in [("EW", "AW"), ("EU", "AU"), ("EU", "EW"), ("AU", "AW"), ("And", "Or"), ("Imp", "Iff"), ("Xor", "Or")]:
+        for wrap in (lambda z: z, lambda z: ("H", "Bind", "x", None, ("B", "And", z, gen.T("V", "x")))):
+            fs = [wrap(("B", o1, a_, b_)), wrap(("B", o2, a_, b_))]
+            chk.add_front("DUPS", ["1", ",".join(gen.hx(p) for p in props), ",".join(gen.hx(gen.render(f)) for f in fs)],
+                          tag="dups-twins", meta={"fs": fs})
+    for o1, o2 in [("EX", "AX"), ("EF", "AF"), ("EG", "AG"), ("EF", "EG")]:
+        fs = [("U", o1, ("B", "And", a_, b_)), ("U", o2, ("B", "And", a_, b_))]
+        chk.add_front("DUPS", ["1", ",".join(gen.hx(p) for p in props), ",".join(gen.hx(gen.render(f)) for f in fs)],
+                      tag="dups-twins", meta={"fs": fs})
 
 
 def occurrences_with_domains(t, doms=None):
@@ -614,6 +640,16 @@ def gen_C14(chk):
                 need |= wl | dl
             ctx = [(l, ctx_spec(rng)) for l in sorted(need) if rng.random() < 0.9]
             chk.add_eval(net, k, "e" + rng.choice(["s", ""]), fs, ctx=ctx, tag="ext-batch", netname=nm)
+        # the self-loop-free entry point validates its input like the others
+        for j in range(cnt(chk, 6, 20)):
+            f = gen.random_formula(rng, rng.randint(1, 6), props + (["nope"] if rng.random() < 0.1 else []), max_vars=3, w_hybrid=0.5)
+            if rng.random() < 0.15:
+                f = break_scoping(f, rng)
+            d = gen.quant_depth(f)
+            k = rng.choice([0, max(0, d - 1), d, d + 1])
+            if len(props) * (1 + k) > 10:
+                k = max(0, d - 1)
+            chk.add_eval(net, k, "u", [f], tag="unsafe-entry", netname=nm)
         # nested domains on disjoint sets of colours: valid input, an answer is due
         for j in range(cnt(chk, 3, 8)):
             sd = rng.randint(1, 10 ** 6)
